@@ -20,6 +20,8 @@ import (
 	"time"
 )
 
+var vJSONBuf = new(bytes.Buffer)
+
 type vMsg struct {
 	Exp []int `json:"exp"`
 	Buf []int `json:"buf"`
@@ -237,7 +239,8 @@ func vRunMsg(cache MemCache, m vMsg, wantJSON, measure bool) (res vRes) {
 	}
 	if wantJSON {
 		// what the worker does with a decoded message (vflow/ipfix.go)
-		b, jerr := msg.JSONMarshal(new(bytes.Buffer))
+		vJSONBuf.Reset() // one encode buffer for the life of the process, reset before every message: what the workers do
+		b, jerr := msg.JSONMarshal(vJSONBuf)
 		if jerr != nil {
 			res.JErr = jerr.Error()
 		} else {
